@@ -114,6 +114,10 @@ def gen_cases(tier, seed):
         meas = devsim.random_meas(rng, n)
         if rng.random() < 0.3:
             meas.append(("state",))
+        if cl and rng.random() < 0.6:        # Z-type words: expectation -1 / +1 is frequent on stabiliser states (exercises <Q>^2 != <Q>)
+            zw = [3 * rng.randint(0, 1) for _ in range(n)]
+            if any(zw) and (rng.choice(["var", "expval"]), zw) not in meas:
+                meas.insert(0, (rng.choice(["var", "var", "expval"]), zw))
         bidx = None
         if not cl and rng.random() < 0.15:
             cand = [k for k, g in enumerate(circ) if len(g["p"]) == 1 and not g["mods"] and g["g"] != "GlobalPhase"]
